@@ -283,9 +283,7 @@ theorem mergeDuplicateEdges_attrs {s : HG} (h : AttrsOK s) (rename : Rename) (ru
 
 theorem lccInPlace_attrs {s : HG} (h : AttrsOK s) : AttrsOK (lccInPlace s).1 := by
   unfold lccInPlace
-  split
-  · exact h
-  · exact guardF_inv AttrsOK _ _ h (removeNodesFrom_attrs h _ _ _)
+  exact guardF_inv AttrsOK _ _ h (removeNodesFrom_attrs h _ _ _)
 
 theorem relabel_attrs {s : HG} (h : AttrsOK s) (l : String) : AttrsOK (relabel s l).1 := by
   unfold relabel
